@@ -383,10 +383,13 @@ func C16(r *vf.Run) {
 type cloneTree struct {
 	g       *vf.Rng
 	nilMode bool
-	cells   map[string]int64
-	log     []string
-	maxDep  int
-	nclone  int
+	// parentLabels: a Label that opens a stretch may be made on the parent while the clone is pending
+	parentLabels bool
+	all          []hcall // the whole history (set with parentLabels)
+	cells        map[string]int64
+	log          []string
+	maxDep       int
+	nclone       int
 	// finalizable[i]: Finalize may be called on the root before calls[i] (everything referenced so far
 	// resolves); finAt records where it was
 	finalizable []bool
@@ -487,6 +490,26 @@ func (t *cloneTree) feed(e *asm.Emitter, buf []byte, calls []hcall, depth int) {
 				invoke(sibs[s], c)
 			}
 		}
+		// where only labels, bytes and the Finalize outcome are judged (C06 - not the equivalence of C16,
+		// which speaks of a head emitted before the clone is taken): the host may define the label that
+		// names the fragment on the parent itself while the fragment is still being built; the program
+		// counter there has not moved, so the label is where the plain sequence has it
+		first := i
+		once := func(name string) bool { // (a name the history tries to define again must meet its first definition)
+			n := 0
+			for _, c := range t.all {
+				if c.Op == "label" && c.S == name {
+					n++
+				}
+			}
+			return n == 1
+		}
+		if t.parentLabels && j > i && !t.nilMode && calls[i].Op == "label" && once(calls[i].S) && g.Intn(2) == 0 {
+			invoke(e, calls[i])
+			first = i + 1
+			t.log = append(t.log, fmt.Sprintf("depth %d: calls[%d] (Label) made on the parent while its clone is pending", depth, i))
+			t.cells["tree:parent-labelled-while-clone-pending"]++
+		}
 		// until Append is called, nothing done to any clone (or to clones of clones) shows in e
 		names := labelNames(calls)
 		names = append(names, "the_end")
@@ -495,7 +518,7 @@ func (t *cloneTree) feed(e *asm.Emitter, buf []byte, calls []hcall, depth int) {
 		for s := range sibs {
 			switch {
 			case s == chosen:
-				t.feed(sibs[s], bufs[s], calls[i:j], depth+1)
+				t.feed(sibs[s], bufs[s], calls[first:j], depth+1)
 			case g.Intn(4) == 0 && late < 0:
 				late = s // driven only after the Append of its sibling
 			default:
